@@ -305,7 +305,7 @@ def run_drive(exe, api, lines, shards=NCPU, env=None, timeout=3600, flags=None):
                     if pos + got < len(part):
                         out[part[pos + got][0]] = l[2:]
                     got += 1
-                elif l[:2] in ("S ", "M ", "L ", "T ") and got > 0 and pos + got - 1 < len(part):
+                elif l[:2] in ("S ", "M ", "L ", "T ", "X ") and got > 0 and pos + got - 1 < len(part):
                     d = fl.setdefault(part[pos + got - 1][0], {})
                     d[l[0]] = l[2:]
                     if l[0] == "L":
